@@ -734,4 +734,92 @@ theorem noOrder_pick_sequence_unique {q r qa qb : List α} {force nta ntb : Bool
 example : (streamNoAuto [10, 20, 30] ⟨[0, 1, 1], []⟩ false).map (·.1) = some [20] ∧
     (streamNoAuto [10, 20, 30] ⟨[2, 4, 3], []⟩ false).map (·.1) = some [20] := by decide
 
+
+/-! ### top-level order hooks: every single release -/
+
+/-- `TopLevelStreamOrderHook`: every pending item can be the one released next -/
+theorem tlOrder_every_item_reachable (q : List α) (force : Bool) (log : List Call) (idx : Nat) (x : α)
+    (hx : q[idx]? = some x) :
+    ∃ tape d', tlOrderAuto q ⟨tape, log⟩ force = some ([x], q.eraseIdx idx, true, d') := by
+  have hi : idx < q.length := by
+    rcases Nat.lt_or_ge idx q.length with h | h
+    · exact h
+    · simp [List.getElem?_eq_none h] at hx
+  have hne : q.isEmpty = false := by
+    cases hq : q with
+    | nil => simp [hq] at hi
+    | cons _ _ => simp
+  cases force with
+  | true =>
+    refine ⟨[idx], ?_⟩
+    unfold tlOrderAuto
+    simp only [hne, Bool.false_eq_true, ↓reduceIte, Bool.not_true, aux_boolIf_false]
+    have := aux_natEx_hit 0 q.length idx log [] (Nat.zero_le _) hi
+    simp only [Nat.sub_zero] at this
+    simp only [this, hx]
+    exact ⟨_, rfl⟩
+  | false =>
+    refine ⟨[0, idx], ?_⟩
+    unfold tlOrderAuto
+    simp only [hne, Bool.false_eq_true, ↓reduceIte, Bool.not_false]
+    have hb := aux_boolIf_hit false log [idx]
+    simp only [Bool.false_eq_true, ↓reduceIte] at hb
+    simp only [hb, Bool.false_eq_true, ↓reduceIte]
+    have := aux_natEx_hit 0 q.length idx (.b false :: log) [] (Nat.zero_le _) hi
+    simp only [Nat.sub_zero] at this
+    simp only [this, hx]
+    exact ⟨_, rfl⟩
+
+/-- … and, when not forced, so can "release nothing" -/
+theorem tlOrder_silence_reachable (q : List α) (log : List Call) :
+    ∃ tape d', tlOrderAuto q ⟨tape, log⟩ false = some ([], q, false, d') := by
+  by_cases hq : q.isEmpty = true
+  · exact ⟨[], ⟨[], log⟩, by simp [tlOrderAuto, hq]⟩
+  · refine ⟨[1], ?_⟩
+    unfold tlOrderAuto
+    simp only [hq, Bool.false_eq_true, ↓reduceIte, Bool.not_false]
+    have hb := aux_boolIf_hit true log []
+    simp only [↓reduceIte] at hb
+    simp only [hb, ↓reduceIte]
+    exact ⟨_, rfl⟩
+
+/-- `TopLevelMergeOrderedHook`: with both inputs pending, either front can be released next -/
+theorem tlMerge_either_front_reachable (x y : α) (r1 r2 : List α) (force : Bool) (log : List Call) :
+    (∃ tape d', tlMergeAuto (x :: r1) (y :: r2) ⟨tape, log⟩ force = some ([x], r1, y :: r2, true, d')) ∧
+    (∃ tape d', tlMergeAuto (x :: r1) (y :: r2) ⟨tape, log⟩ force = some ([y], x :: r1, r2, true, d')) := by
+  cases force with
+  | true =>
+    constructor
+    · refine ⟨[0], ?_⟩
+      simp only [tlMergeAuto, List.isEmpty_cons, Bool.and_self, Bool.false_eq_true, ↓reduceIte, Bool.not_true,
+        aux_boolIf_false]
+      have hb := aux_bool_hit false log []
+      simp only [Bool.false_eq_true, ↓reduceIte] at hb
+      simp only [hb, Bool.false_eq_true, ↓reduceIte]
+      exact ⟨_, rfl⟩
+    · refine ⟨[1], ?_⟩
+      simp only [tlMergeAuto, List.isEmpty_cons, Bool.and_self, Bool.false_eq_true, ↓reduceIte, Bool.not_true,
+        aux_boolIf_false]
+      have hb := aux_bool_hit true log []
+      simp only [↓reduceIte] at hb
+      simp only [hb, ↓reduceIte]
+      exact ⟨_, rfl⟩
+  | false =>
+    have hb0 := fun rest => aux_boolIf_hit false log rest
+    simp only [Bool.false_eq_true, ↓reduceIte] at hb0
+    constructor
+    · refine ⟨[0, 0], ?_⟩
+      simp only [tlMergeAuto, List.isEmpty_cons, Bool.and_self, Bool.false_eq_true, ↓reduceIte, Bool.not_false, hb0]
+      have hb := aux_bool_hit false (.b false :: log) []
+      simp only [Bool.false_eq_true, ↓reduceIte] at hb
+      simp only [hb, Bool.false_eq_true, ↓reduceIte]
+      exact ⟨_, rfl⟩
+    · refine ⟨[0, 1], ?_⟩
+      simp only [tlMergeAuto, List.isEmpty_cons, Bool.and_self, Bool.false_eq_true, ↓reduceIte, Bool.not_false, hb0]
+      have hb := aux_bool_hit true (.b false :: log) []
+      simp only [↓reduceIte] at hb
+      simp only [hb, ↓reduceIte]
+      exact ⟨_, rfl⟩
+
+
 end HvSim
